@@ -28,7 +28,7 @@ template<class U>
 static std::vector<U> lattice_bits() {
     const int W = int(sizeof(U) * 8);
     std::vector<U> v;
-    if (W == 8) {
+    if (W == 8 && !std::getenv("VH_LIGHT")) {
         for (unsigned i = 0; i < 256; ++i) v.push_back(U(i));
         return v;
     }
@@ -116,7 +116,7 @@ static std::vector<std::pair<T, T>> pairs(Rng& r, std::size_t nrandom) {
 template<class T>
 static std::vector<T> singles(Rng& r, std::size_t nrandom) {
     std::vector<T> v;
-    if (sizeof(T) <= 2) {
+    if (sizeof(T) == 1 || (sizeof(T) == 2 && !std::getenv("VH_LIGHT"))) {
         for (unsigned i = 0; i < (1u << (8 * sizeof(T))); ++i) v.push_back(T(i));
         return v;
     }
